@@ -8,7 +8,6 @@ package dht
 
 import (
 	"bytes"
-	"hash/fnv"
 	"iter"
 	"sort"
 	"sync/atomic"
@@ -108,19 +107,32 @@ func verifOrdered(m map[*node]struct{}) iter.Seq[*node] {
 		n *node
 		h uint64
 	}
+	if len(m) == 0 {
+		return func(func(*node) bool) {}
+	}
+	if len(m) == 1 {
+		return func(yield func(*node) bool) {
+			for n := range m {
+				yield(n)
+				return
+			}
+		}
+	}
 	salt := VerifOrderSalt.Load()
 	l := make([]ent, 0, len(m))
 	for n := range m {
-		h := fnv.New64a()
-		var sb [8]byte
-		for i := range sb {
-			sb[i] = byte(salt >> (8 * i))
-		}
-		h.Write(sb[:])
+		h := uint64(14695981039346656037) ^ salt
 		id := n.Id.AsByteArray()
-		h.Write(id[:])
-		h.Write([]byte(n.Addr.String()))
-		l = append(l, ent{n, h.Sum64()})
+		for _, b := range id {
+			h = (h ^ uint64(b)) * 1099511628211
+		}
+		for _, b := range []byte(n.Addr.String()) {
+			h = (h ^ uint64(b)) * 1099511628211
+		}
+		h ^= h >> 29
+		h *= 0xbf58476d1ce4e5b9
+		h ^= h >> 32
+		l = append(l, ent{n, h})
 	}
 	sort.Slice(l, func(i, j int) bool {
 		if l[i].h != l[j].h {
